@@ -50,6 +50,9 @@ func unreachApply(op string, raw json.RawMessage) interface{} {
 	if err := json.Unmarshal(raw, &a); err != nil {
 		panic(err)
 	}
+	if op == "churn" {
+		return unreachChurn(a)
+	}
 	if op != "deliver" {
 		panic("verif: unknown op " + op)
 	}
@@ -150,6 +153,114 @@ func unreachApply(op string, raw json.RawMessage) interface{} {
 	return map[string]interface{}{"ok": map[string]interface{}{"sockets": perSock, "cancelled": cs, "rets": rets}}
 }
 
+// unreachChurn: unrelated sockets are closed while a notice is being fanned out (one subscriber is
+// momentarily slow, which keeps the node-wide broker inside its delivery round).  Afterwards the
+// sender must still get its notice, and the node must still be able to open sockets and deliver
+// further notices.  Only liveness is observed, with generous deadlines.
+func unreachChurn(a unreachArgs) interface{} {
+	me := string(verifUnhex(a.Me))
+	s, cancel := verifQuietNode(me, 30)
+	defer cancel()
+	notice := func(svc string, problem string) {
+		u := UnreachableMessage{FromNode: me, FromService: svc, ToNode: "r1", ToService: "gone", Problem: problem}
+		data, _ := json.Marshal(u)
+		_ = s.handleMessageData(&MessageData{FromNode: "r1", FromService: "unreach", ToNode: me, ToService: "unreach", HopsToLive: 5, Data: data})
+	}
+	apc, err := s.ListenPacket("sender")
+	if err != nil {
+		return map[string]interface{}{"err": "listen"}
+	}
+	stop := make(chan struct{})
+	defer close(stop)
+	ach := apc.SubscribeUnreachable(stop)
+	got := make(chan string, 64)
+	go func() {
+		first := true
+		for n := range ach {
+			if first {
+				time.Sleep(60 * time.Millisecond) // the slow subscriber: the broker stays in its round meanwhile
+				first = false
+			}
+			got <- n.Problem
+		}
+	}()
+	var idle []PacketConner
+	for i := 0; i < len(a.Sockets)+8; i++ {
+		pc, err := s.ListenPacket("")
+		if err == nil {
+			idle = append(idle, pc)
+		}
+	}
+	done := make(chan struct{})
+	go func() {
+		// the first notice parks the sender socket's forwarding goroutine behind its slow subscriber;
+		// the following ones keep the node-wide broker inside delivery rounds, with a further publication always pending
+		for k := 0; k < 12; k++ {
+			notice("sender", "first")
+		}
+		close(done)
+	}()
+	time.Sleep(10 * time.Millisecond)
+	var wg sync.WaitGroup
+	for _, pc := range idle {
+		wg.Add(1)
+		go func(pc PacketConner) {
+			defer wg.Done()
+			_ = pc.Close()
+		}(pc)
+	}
+	live := true
+	wait := func(what string, ch <-chan struct{}) {
+		if !live {
+			return
+		}
+		select {
+		case <-ch:
+		case <-time.After(15 * time.Second):
+			live = false
+		}
+		_ = what
+	}
+	closed := make(chan struct{})
+	go func() { wg.Wait(); close(closed) }()
+	wait("first notice published", done)
+	wait("idle sockets closed", closed)
+	expect := func(problem string) {
+		if !live {
+			return
+		}
+		select {
+		case p := <-got:
+			if p != problem {
+				live = false
+			}
+		case <-time.After(15 * time.Second):
+			live = false
+		}
+	}
+	for k := 0; k < 12; k++ {
+		expect("first")
+	}
+	if live {
+		// the node must still work: a new socket can be opened and a further notice arrives
+		opened := make(chan struct{})
+		go func() {
+			if pc, err := s.ListenPacket(""); err == nil {
+				_ = pc.Close()
+			}
+			close(opened)
+		}()
+		wait("new socket", opened)
+		second := make(chan struct{})
+		go func() { notice("sender", "second"); close(second) }()
+		wait("second notice published", second)
+		if live {
+			expect("second")
+		}
+	}
+	return map[string]interface{}{"ok": map[string]interface{}{"live": live}}
+}
+
 func unreachGen(v *verifRun) {
 	nodes := []string{"me", "Me", "r1", "r2", "me "}
 	svcs := []string{"s1", "s2", "S1", "s1 ", "ephemerl"}
@@ -181,6 +292,9 @@ func unreachGen(v *verifRun) {
 			a.Notices = append(a.Notices, n)
 		}
 		v.do(unreachApply, "deliver", a)
+		if i%25 == 0 {
+			v.do(unreachApply, "churn", unreachArgs{Me: hx("me"), Sockets: a.Sockets})
+		}
 	}
 }
 
